@@ -317,7 +317,10 @@ func c19Execute(capPath, events string, trace bool) (viols []c19Viol, err error)
 			}
 		}
 		/* The private flag agrees with the model where the model is sure. */
-		silenced, _ := ts.sh.VerifState()
+		silenced, known := ts.sh.VerifMuted()
+		if !known {
+			continue /* The Shell keeps its state some other way: the terminal decides alone. */
+		}
 		switch m.state(vtime.Now()) {
 		case "muted":
 			if !silenced {
@@ -508,6 +511,7 @@ func c19(r *ev.Result, tier string) {
 			Stuck     string   `json:"stuck"`
 			Schedule  []string `json:"schedule"`
 			Err       string   `json:"err"`
+			NA        string   `json:"not_applicable"`
 		}
 		if jerr := json.Unmarshal(out, &res); nil != jerr || nil != err || "" != res.Err {
 			ev.Broken("c19 lock-interleaving worker for %s: %v %v %s %q", scenarios[i], err, jerr, res.Err, trunc80(string(out)))
@@ -518,6 +522,9 @@ func c19(r *ev.Result, tier string) {
 		r.Transitions += res.Steps
 		r.States += res.Steps
 		r.Inc("lock_schedules", res.Schedules)
+		if "" != res.NA {
+			r.Inc("lock_scenarios_not_applicable", 1)
+		}
 		mu.Unlock()
 		if "" != res.Problem {
 			sig := "lock-interleaving/liveness"
